@@ -587,7 +587,7 @@ func topoSummary(t topology) map[string]any {
 
 func checkParsing(run *mon.Run) {
 	rng := run.Rand("parse")
-	n := run.N(2500, 100000)
+	n := scale(run.N(2500, 100000))
 	for i := 0; i < n; i++ {
 		shardsCmd := i%2 == 1
 		resp3 := rng.Intn(2) == 0
